@@ -247,6 +247,16 @@ def check_ioerr(crate, rep, cfg):
             else:
                 rep.ok("C18.IOERR", key, b.where(bb), what)
     rep.floor("C18.IOERR", "io::Result-producing calls on the writer paths [%s]" % cfg, n, 30)
+    # the writer is only driven through write_all / write_fmt (which loop until everything is accepted or fail): a bare `write`
+    # may accept fewer bytes and its count would have to be handled
+    for b in bodies:
+        k = 0
+        for bb, t in b.calls():
+            if callee_def(t) == "std::io::Write::write":
+                rep.bad("C18.IOERR", "C18.IOERR:%s:partial-write#%d" % (b.path, k), b.where(bb), "Write::write on the output path: a short write silently drops the rest of the "
+                        "data while the render still returns Ok (use write_all)")
+                k += 1
+    rep.ok("C18.IOERR", "C18.IOERR:no-partial-writes", "", "no call of Write::write (partial write) on the writer paths; only write_all / write_fmt / the escaper")
     # From<io::Error> for Error builds ErrorKind::Io
     f = [b for p, b in crate.bodies.items() if "From<std::io::Error>" in p and "errors" in p]
     ok = False
